@@ -12,7 +12,7 @@ from ..pipeline import default_classify
 
 
 def validate_group_parallel(rep, spec_dir, module, cfg_text, items, classify=None, steps_of=None,
-                            what_prefix="", dfs=False, timeout=900, chunk=100, jobs=None, env=None):
+                            what_prefix="", dfs=False, timeout=2400, chunk=100, jobs=None, env=None):
     """items: list of (trace, meta).  Returns the number of accepted traces."""
     classify = classify or default_classify
     steps_of = steps_of or (lambda t: len(t))
@@ -67,7 +67,7 @@ def model_check_many(spec_dir, runs, jobs=3):
         return list(ex.map(one, runs))
 
 
-def validate_many(rep, spec_dir, groups, jobs=None, timeout=900):
+def validate_many(rep, spec_dir, groups, jobs=None, timeout=2400):
     """Several validate_group_parallel calls whose TLC processes all run concurrently.
 
     groups: list of dicts {module, cfg, items, classify, steps_of, what_prefix, chunk}.  Verdicts are processed
